@@ -296,10 +296,6 @@ class SetReplayer:
     self.inv = {(type(v).__name__, v): k for k, v in self.keymap.items()}
     self.rng = rng
     self.regs: Dict[int, Any] = {i: KeyPathSet() for i in regs}
-    self.universe = [()]
-    for _ in range(max_depth):
-      self.universe += [p + (k,) for p in self.universe if len(p) == len(self.universe[-1])
-                        for k in range(1, nkeys + 1)] if False else []
     # all key-id sequences up to max_depth
     level, allp = [()], [()]
     for _ in range(max_depth):
@@ -336,7 +332,9 @@ class SetReplayer:
     name = act[0]
     R = self.regs
     ret = None
-    if name == 'Add':
+    if name == 'Init':
+      pass
+    elif name == 'Add':
       ret = R[act[1]].add(self.arg(act[2]))
     elif name == 'Remove':
       ret = R[act[1]].remove(self.arg(act[2]))
@@ -375,8 +373,8 @@ class SetReplayer:
     name = act[0]
     out = state['out']
     if name in ('Add', 'Remove'):
-      if bool(ret) != bool(out):
-        raise SetDivergence('return', {'expected': bool(out), 'observed': ret})
+      if bool(ret) != bool(out['b']):
+        raise SetDivergence('return', {'expected': bool(out['b']), 'observed': ret})
     if name == 'Subtree':
       if out['none']:
         if ret is not None:
@@ -388,7 +386,7 @@ class SetReplayer:
           raise SetDivergence('subtree', {'expected': sorted(want), 'observed': got})
     spec_abs = state['abs']
     for i, s in self.regs.items():
-      want = {tuple(p) for p in _reg(spec_abs, i)}
+      want = {tuple(p) for p in reg(spec_abs, i)}
       got = self.members(s)
       if set(got) != want or len(got) != len(want):
         raise SetDivergence('members', {'reg': i, 'expected': sorted(want), 'observed': sorted(got)})
@@ -402,8 +400,8 @@ class SetReplayer:
     ks = sorted(self.regs)
     for i in ks:
       for j in ks:
-        wi = {tuple(p) for p in _reg(spec_abs, i)}
-        wj = {tuple(p) for p in _reg(spec_abs, j)}
+        wi = {tuple(p) for p in reg(spec_abs, i)}
+        wj = {tuple(p) for p in reg(spec_abs, j)}
         e = self.regs[i] == self.regs[j]
         n = self.regs[i] != self.regs[j]
         if bool(e) != (wi == wj) or bool(n) == bool(e):
@@ -412,11 +410,11 @@ class SetReplayer:
   def resync(self, state: dict):
     """After a known divergence: rebuild every register from the spec state so the walk can go on."""
     for i in self.regs:
-      self.regs[i] = KeyPathSet([self.kp(p) for p in sorted(tuple(q) for q in _reg(state['abs'], i))])
+      self.regs[i] = KeyPathSet([self.kp(p) for p in sorted(tuple(q) for q in reg(state['abs'], i))])
     self.resyncs += 1
 
 
-def _reg(fn, i):
+def reg(fn, i):
   """abs / trie are functions over Regs: TLC prints 1..n domains as sequences."""
   if isinstance(fn, dict):
     return fn[i] if i in fn else fn[str(i)]
